@@ -104,6 +104,7 @@ class Item:
     extra_requires: str = ''
     emit_name: str = None
     qname: str = None
+    optional: bool = False  # a helper that may disappear in a refactoring: if it is gone it is skipped together with its contracts
 
     def q(self):
         if self.qname:
@@ -517,25 +518,26 @@ class UnitBuild:
             self.gen.lines[self.atoms_at] = m.replace('\n', ' ')
             self.count('R4-atoms', len(locals_) + len(nss) + len(prefixes))
         # every contract block must have been used (a lost anchor is undecided, not a pass)
+        gone = getattr(self, 'missing_optional', set())
         for k in self.contracts.fn:
-            if k not in self.used_contracts and k not in self.contracts.shared:
+            if k not in self.used_contracts and k not in self.contracts.shared and k not in gone:
                 raise ExtractError('contract for %s has no extracted function' % k)
         verified = set(f['qname'] for f in self.functions if f['mode'] == 'verify')
         dev = bool(os.environ.get('VERIF_DEV_ASSUME'))
         for k, d in self.contracts.loops.items():
-            if dev and k not in verified:
+            if (dev and k not in verified) or k in gone:
                 continue
             for o in d:
                 if (k, o) not in self.used_loops:
                     raise ExtractError('loop contract %s #%s matched no loop' % (k, o))
         for k, d in self.contracts.closures.items():
-            if dev and k not in verified:
+            if (dev and k not in verified) or k in gone:
                 continue
             for o in d:
                 if (k, o) not in self.used_closures and not o.startswith('/'):
                     raise ExtractError('closure contract %s #%s matched no closure' % (k, o))
         for k, lst in self.contracts.proofs.items():
-            if dev and k not in verified:
+            if (dev and k not in verified) or k in gone:
                 continue
             for idx in range(len(lst)):
                 if (k, idx) not in self.used_proofs:
@@ -556,7 +558,13 @@ class UnitBuild:
     def emit_item(self, it):
         s = self.src(it.file)
         if it.kind == 'fn':
-            start, lb, end = s.find_fn(it.name, it.impl, it.nth, it.trait_impl)
+            try:
+                start, lb, end = s.find_fn(it.name, it.impl, it.nth, it.trait_impl)
+            except ExtractError:
+                if not it.optional:
+                    raise
+                self.missing_optional = getattr(self, 'missing_optional', set()) | set([it.q()])
+                return
         else:
             start, end = s.find_kw_item(it.kind, it.name)
             lb = None
